@@ -5,7 +5,8 @@ replaces one function the hook calls by one that raises) in a scratch HOME / pro
 
 Implementation-level oracle (model-free), for every pre-execution run:
   exit status 0; no "Traceback" on stderr; stdout is exactly one line holding one JSON object;
-  that object is {} or a decision envelope; an ALLOW envelope is legitimate (bypass permission mode
+  that object is {} or a decision envelope; with a function made to raise, the answer is the
+  fault-free answer, {} or the config-error ask; an ALLOW envelope is legitimate (bypass permission mode
   on a routed call, or an independent in-process analyze() of a str command says allow with that
   reason, or the last matching *-mcp rule says allow) and, when a function that every allow path
   must call was made to raise, not there at all; unreadable / non-object stdin gives {} or ask.
@@ -285,6 +286,22 @@ def judge(sc, c: H.Case, out: core.Outcome):
             return bad("deny without any deny rule in the configuration", "deny-without-rule")
 
 
+def fault_effect(sc, c, out):
+    """With a function made to raise, the answer is the fault-free one, or {}, or an ask - nothing else."""
+    bad, good = H.parse_stdout(c.out), H.parse_stdout(c.twin.out)
+    if bad == good:
+        return "unchanged"
+    if bad == [("J", {})]:
+        return "{}"
+    d = H.any_decision(bad[0][1]) if len(bad) == 1 and bad[0][0] == "J" else None
+    if d is not None and d[1] == "ask" and (c.fault[1] == "ConfigError"):
+        return "config-error ask"
+    out.violations.append({"kind": "protocol", "what": f"{c.fault[0]} raising {c.fault[1]} turned the answer {good} into {bad}",
+                           **H.describe(c, sc), "without_fault": c.twin.out[:300].decode("utf-8", "replace"),
+                           "signature_text": f"fault-not-monotone | {c.label}"})
+    return "other"
+
+
 def run(tier, seed, replay=None):
     lib.use_repo()
     rng = random.Random(seed)
@@ -296,10 +313,20 @@ def run(tier, seed, replay=None):
             cases = [H.replay_case(sc, replay)]
         else:
             cases = build_cases(sc, tier, rng)
-        H.run_cases(sc, cases)
+        # the fault-free twin of every fault case (C06_failures_monotone, model-free restatement)
+        twins = {}
+        for c in cases:
+            if c.fault:
+                k = lib.sha([c.data.decode("latin-1"), list(c.flags), c.user_cfg, c.proj_cfg, c.env_cfg])
+                if k not in twins:
+                    twins[k] = H.Case(c.data, label="twin", flags=c.flags, env=c.env, user_cfg=c.user_cfg, proj_cfg=c.proj_cfg, env_cfg=c.env_cfg)
+                c.twin = twins[k]
+        H.run_cases(sc, cases + list(twins.values()))
         hm = H.HookModel(sc)
         xcheck = []
         for idx, c in enumerate(cases):
+            if c.fault:
+                out.count("fault_effect", fault_effect(sc, c, out))
             plain = c.label.startswith("verdict-classes") or c.label == "tools"
             out.case(c.key(), nontrivial=not plain)
             out.count("stream", c.label.split(":")[0])
